@@ -73,6 +73,46 @@ def wsgi_failures(ctx):
     return fails, n
 
 
+def h2_failed_behind_window(ctx):
+    """HTTP/2: the application fails after sending more body than the client's window lets through.  What was sent is
+    flushed as the client grants credit, and the stream is then reset - the client is not left waiting."""
+    import random
+
+    import h2.settings
+
+    from . import h2rig as H2
+    from . import sched as S
+
+    rng = random.Random(ctx.seed * 77 + 1)
+    fails, n = [], ctx.scale(12, 120, 40)
+    for i in range(n):
+        W = rng.choice([10, 100, 5000])
+        size = W + rng.choice([1, 90, 4000])
+        how = rng.choice(["raise", "return"])
+        script = [("recv_all",), ("send", {"type": "http.response.start", "status": 200, "headers": []}),
+                  ("send", {"type": "http.response.body", "body": b"z" * size, "more_body": True}), (how,)]
+        sess = H2.H2Session([script], policy=rng.choice(["fifo", "random"]), seed=i, client_settings={h2.settings.SettingCodes.INITIAL_WINDOW_SIZE: W},
+                            worker=rng.choice(["asyncio", "trio"]))
+        sess.auto_ack = False
+        sess.request(1, path="/fail")
+        sess.pump()
+        before = len(sess.data.get(1, b""))
+        sess.auto_ack = True
+        try:
+            sess.window_update(1, size + 1000)
+        except Exception:  # noqa: BLE001
+            sess.flush()
+        for _ in range(20):
+            sess.pump()
+        case = {"kind": "h2-failed-behind-window", "window": W, "body": size, "how": how, "received_before_credit": before,
+                "received": len(sess.data.get(1, b"")), "reset": sess.reset.get(1), "ended": sess.ended.get(1, 0)}
+        if sess.ended.get(1, 0):
+            fails.append({"case": case, "what": "the failed response was ended as if complete", "signature": "c05h2:false-complete"})
+        elif 1 not in sess.reset:
+            fails.append({"case": case, "what": "the failed stream was neither reset nor ended after the client granted credit", "signature": "c05h2:failed-stream-not-terminated"})
+    return fails, n
+
+
 def run(ctx):
     h2x = K.h2_extra(["c05", "c02"], (150, 2500, 800), crashes=True)
 
@@ -86,6 +126,10 @@ def run(ctx):
         r["failures"] = list(r["failures"]) + f
         r["count"] += n
         r["dist"]["wsgi_failures"] = n
+        f, n = h2_failed_behind_window(c)
+        r["failures"] = list(r["failures"]) + f
+        r["count"] += n
+        r["dist"]["h2_failed_behind_window"] = n
         return r
 
     return K.run_common(ctx, PROP, ["c05", "c06"], (200, 2500, 800), (300, 3000, 1000), (350, 5000, 2000), kw,
